@@ -79,6 +79,8 @@ def be_value(x, base="top:buffer"):
             if ix and all(i is not None for i in ix) and ix == list(range(ix[0], ix[0] + len(ix))):
                 return (ix[0], ix[0] + len(ix))
             return None
+        while isinstance(a, tuple) and len(a) == 2 and isinstance(a[1], str) and re.match(r"^(\.ok|\.some|\.\*)+$", a[1]):
+            a = a[0]
         v = slice_view(a, base)          # from_be_bytes(<[u8; N]>::try_from(&b[lo..hi]))
         if v is not None and v[1] is not None:
             return v
